@@ -1,0 +1,23 @@
+//go:build verif
+
+package xslices
+
+// Contracts for the deductive verifier in /verif (properties C07, C19). Only part of the build
+// under the tag `verif`.
+
+// ---- assumed contracts of the standard library package slices (never proved) ----
+
+//@ ext slices.Grow(s, n) (r)
+//@   panics when n < 0
+//@   ensures len(r) == len(s) && cap(r) >= len(s) + n
+//@   ensures forall k int {r[k]} :: 0 <= k && k < len(s) ==> r[k] == s[k]
+//@   ensures old(cap(s) >= len(s) + n) ==> r == s
+//@   ensures old(cap(s) < len(s) + n) ==> fresh(r) && off(r) == 0
+
+//@ func Shrink
+//@   props C19
+//@   panics when n < 0
+//@   ensures len(result) == len(s) && cap(result) <= len(s) + n
+//@   ensures forall k int {result[k]} :: 0 <= k && k < len(s) ==> result[k] == s[k]
+//@   ensures old(cap(s) <= len(s) + n) ==> result == s
+//@   ensures old(cap(s) > len(s) + n) ==> fresh(result) && cap(result) == len(s) + n
